@@ -169,7 +169,8 @@ class ConcurrentExecutor(ABC, Generic[CallableType, ResultType]):
 
         # Event-driven state tracking for when the executor is done
         self._completion_event = threading.Event()
-        self._on_task_complete_lock = threading.Lock()
+        # re-entrant: a done-callback can run inline on the thread that resubmits a branch
+        self._on_task_complete_lock = threading.RLock()
         self._suspend_exception: SuspendExecution | None = None
         # Set when a branch (or the timer thread) hits a non-Exception BaseException such as
         # BackgroundThreadError: the executor must stop waiting and re-raise it to the caller.
@@ -231,7 +232,13 @@ class ConcurrentExecutor(ABC, Generic[CallableType, ResultType]):
                 self._fatal_exception = e
                 self._completion_event.set()
                 return
-            submit_task(executable_with_state)
+            with self._on_task_complete_lock:
+                if self._completion_event.is_set():
+                    # execute() has already been told to complete or to suspend and is leaving:
+                    # a branch started now would keep running (and checkpointing) behind its
+                    # back, next to the run that follows the suspension.
+                    return
+                submit_task(executable_with_state)
 
         thread_executor = ThreadPoolExecutor(max_workers=max_workers)
         try:
